@@ -42,6 +42,13 @@ def check(tier, seed):
     for (s, mode, src, m, c, r, i), sig in zip(meta, refs):
         cases.append({'line': f"sign {s} {mode} {src} {hx(m)} {hx(c)} ok:{r.hex()}", 'tag': f'{mode} {src.split(":")[0]}',
                       'want': f"ok {sig.hex()} calls={'-' if mode == 'internal' else 'tryfill32'}", 'model': i < 5 or i == 10 ** 6 + 2 * n * 3})
+    # the signature is a function of the 32 bytes the generator delivers and of nothing else: a generator that fails (any error code,
+    # any number of times) yields no signature; one that succeeds at the first request is asked once
+    for s in fam.SETS:
+        xi0 = fam.seeds(random.Random(seed), 1)[0]
+        for mode in ('pure', 'sha512'):
+            for sc in ('errbefore', 'errbefore@11+errbefore@11+errbefore@11+errbefore@11', 'errbefore@4+errbefore@4+errbefore@4', 'errafter@11:' + 'cd' * 32 + '+errafter@11:' + 'cd' * 32 + '+errafter@11:' + 'cd' * 32):
+                cases.append({'line': f"sign {s} {mode} gen:{xi0.hex()} {hx(b'm')} - {sc}", 'tag': 'sign with a failing generator', 'want': 'err:rng calls=tryfill32', 'model': s == '44'})
     # hook level: the samplers of Algorithm 7 at the counter values a long rejection run would reach (kappa crossing byte
     # boundaries, the u16 range end), compared with the bit-level reference
     for s in fam.SETS:
